@@ -79,6 +79,7 @@ impl Ctx<'_> {
   }
 }
 
+static ANON_WITH_KIDS: AtomicU64 = AtomicU64::new(0);
 const CAP: usize = 10_000; // horizon for iterators that might not terminate
 
 fn check_tree(ctx: &Ctx, nodes_seen: &AtomicU64) {
@@ -90,6 +91,9 @@ fn check_tree(ctx: &Ctx, nodes_seen: &AtomicU64) {
   for n in &nodes {
     let kids = children_vec(n);
     let zw_kids = kids.iter().any(|c| c.range().is_empty());
+    if !n.is_named() && !kids.is_empty() {
+      ANON_WITH_KIDS.fetch_add(1, Ordering::Relaxed);
+    }
     // children() agrees with child(i)
     let it: Vec<Key> = n.children().take(CAP).map(|c| key(&c)).collect();
     let base: Vec<Key> = kids.iter().map(key).collect();
@@ -328,6 +332,7 @@ fn main() {
     "nodes_checked": nodes.load(Ordering::Relaxed),
     "per_language": per_lang,
     "panics": panics.load(Ordering::Relaxed),
+    "anonymous_nodes_with_children": ANON_WITH_KIDS.load(Ordering::Relaxed),
     "ts_kind_alias_disagreements": KIND_DISAGREE.load(Ordering::Relaxed),
     "clauses": ["children-iter","child-parent","child-nesting","child-order","ancestors","next_all","prev_all","next","prev","pre-order","dfs","post-order","level-order","start_pos","end_pos","text","char-boundary"],
   });
